@@ -331,6 +331,7 @@ def finishCase (s : SSt) (rline : String) : SSt := Id.run do
       s := { s with specBudget := s.specBudget - 1, stats := { s.stats with specNegamaxChecks := s.stats.specNegamaxChecks + 1 } }
       if sref != implScore then
         s := s.report "spec" "C11" "root-score-vs-spec-negamax" s!"impl={implScore} spec-negamax={sref}"
+  let mut pendingMate : Option String := none
   -- C12: after a completed iteration of depth >= 3 the chosen move must respect short forced mates
   if c.tag != "" && unlimited && c.depth ≥ 3 && c.moves.isEmpty then
     let bm := ((s.bests.getD 0 "").splitOn " ").getD 1 ""
@@ -352,10 +353,13 @@ def finishCase (s : SSt) (rline : String) : SSt := Id.run do
           -- score beyond ±32766) the opponent is forcibly mated after the chosen move, however long it takes; the
           -- implementation's score is the model's (compared below); (b) a bounded mate search over the model's game
           let rootScore := ((kv "score").toInt?).getD 0
-          let keeps := rootScore ≥ 32767 - 255 || match (legalMovesOf chessGame board).find? (fun m => m.notation == bm) with
+          let bounded := match (legalMovesOf chessGame board).find? (fun m => m.notation == bm) with
             | some m => lostWithin chessGame 2 (board.makeMove m)
             | none => false
-          if keeps then s := { s with stats := { s.stats with longerMateKept := s.stats.longerMateKept + 1 } }
+          if bounded then s := { s with stats := { s.stats with longerMateKept := s.stats.longerMateKept + 1 } }
+          else if rootScore ≥ 32767 - 255 then
+            -- (a) applies only if the implementation's search IS the model's on this case: decided after the comparison below
+            pendingMate := some s!"chosen={bm} witness={c.wit} reported-score={rootScore}"
           else s := s.report "spec" "C12" "forced-mate-let-go" s!"chosen={bm} witness={c.wit}"
       else if c.tag == "av" then
         s := { s with stats := { s.stats with avoidable := s.stats.avoidable + 1 } }
@@ -373,6 +377,7 @@ def finishCase (s : SSt) (rline : String) : SSt := Id.run do
     -- large searches: only the implementation's repeated runs are compared (above); no model replay
     return s
   -- ---------- correspondence with the executable model ----------
+  let nModel0 := s.nModel
   let tt0 : Table Ply := if c.cache == "keep" then s.tt else {}
   let lim : GoLimits := if c.vdiv > 0 then { nodes := c.nodes, wtime := c.wtime, btime := c.btime, winc := c.winc, binc := c.binc, movetime := c.movetime } else { nodes := c.nodes }
   -- the virtual clock advances once per `limits_exceeded`; with `movetime` the model reads the clock twice there (same virtual instant)
@@ -397,6 +402,12 @@ def finishCase (s : SSt) (rline : String) : SSt := Id.run do
   let iR := " ".intercalate (rt.filter fun x => !x.startsWith "root=")
   if mR != iR then
     s := s.report "model" "C16,C11,C12" "counters" s!"impl=[{iR}] model=[{mR}]"
+  -- a longer forced mate accepted on the strength of the reported mate score: valid only if the search agreed with the model here
+  match pendingMate with
+  | some d =>
+    if s.nModel > nModel0 then s := s.report "spec" "C12" "forced-mate-let-go" (d ++ " (the reported mate score is not the model's)")
+    else s := { s with stats := { s.stats with longerMateKept := s.stats.longerMateKept + 1 } }
+  | none => pure ()
   if s.samples.size < 3 then
     s := { s with samples := s.samples.push s!"{c.raw} -> {" | ".intercalate iInfos} | {s.bests.toList} | writes={s.wlines.size} | {rline}" }
   return { s with tt := res.st.tt }
